@@ -1912,7 +1912,11 @@ impl<'a> Socket<'a> {
             // reason is TCP simultaneous open).
             (State::SynReceived, TcpControl::Rst) if self.listen_endpoint.port != 0 => {
                 tcp_trace!("received RST");
-                self.tuple = None;
+                // Nothing negotiated with the peer that gave up (MSS, window scaling, ...)
+                // may carry over to the next connection attempt.
+                let listen_endpoint = self.listen_endpoint;
+                self.reset();
+                self.listen_endpoint = listen_endpoint;
                 self.set_state(State::Listen);
                 return None;
             }
